@@ -369,6 +369,28 @@ func ruleMapAssign(c *chk.Ctx) {
 					if ir.IsExtractOf(arg, split, 1) {
 						one = true // strings.Cut: the part after the first separator
 					}
+					// m[i+1:] with i the index of the first separator (directly, or as the result
+					// of a private splitting helper)
+					isRest := func(v ssa.Value) bool {
+						sl, isSl := v.(*ssa.Slice)
+						if !isSl || sl.High != nil || sl.Low == nil {
+							return false
+						}
+						bo, isBO := sl.Low.(*ssa.BinOp)
+						if !isBO || bo.Op != token.ADD {
+							return false
+						}
+						k, isK := ir.ConstInt(bo.Y)
+						return isK && k == 1 && bo.X == ssa.Value(split)
+					}
+					if isRest(ir.NormCell(arg)) {
+						one = true
+					}
+					for _, src := range c.P.Sources(arg) {
+						if isRest(src) {
+							one = true
+						}
+					}
 					if u, ok := arg.(*ssa.UnOp); ok {
 						if ia, ok := u.X.(*ssa.IndexAddr); ok && ia.X == ssa.Value(split) {
 							if k, _ := ir.ConstInt(ia.Index); k == 1 {
@@ -407,7 +429,19 @@ func ruleSortedNames(c *chk.Ctx) {
 			sorted := false
 			ir.Instrs(r.Parent(), func(ins ssa.Instruction) {
 				call, ok := ins.(*ssa.Call)
-				if !ok || !ir.IsCallTo(&call.Call, "sort.Strings", "slices.Sort") {
+				if !ok {
+					return
+				}
+				isSort := ir.IsCallTo(&call.Call, "sort.Strings", "slices.Sort")
+				// (slices.SortFunc with the natural string order: strings.Compare / cmp.Compare)
+				if strings.HasPrefix(ir.CalleeName(&call.Call), "slices.SortFunc") && len(call.Call.Args) == 2 {
+					if fn, isFn := call.Call.Args[1].(*ssa.Function); isFn {
+						if name := fn.String(); name == "strings.Compare" || strings.HasPrefix(name, "cmp.Compare") {
+							isSort = true
+						}
+					}
+				}
+				if !isSort {
 					return
 				}
 				if (call.Call.Args[0] == v || ir.SameFieldLoad(call.Call.Args[0], v)) && ir.InstrDominates(call, r) {
